@@ -392,6 +392,7 @@ var ruleText = "Per reactor (consensus manager incl. consensus state, block sync
 	"byte fields of length {0,1,19,20,21,31,32,33,64,65,66,65536,65537} plus original-1/+1 byte/bit-flipped/all-0/all-ff; sub-messages empty/garbage/unknown-field; repeated fields x{0,2,3,10001}; bit arrays bits{0,1,4,5,64,65,10000,10001,2^31,2^32-1,2^63,2^64-1} x elems{0,1,2,157}); " +
 	"every pair of (reduced-set) mutations on NewRoundStep and VoteSetBits; the full product of boundary values {0, limit-1, limit, limit+1, limit+2, 2^31, max} over each group of semantically coupled fields whose validation is split over several checks (BlockPart part.index x proof.index x proof.total around the part-set total; Vote validator_index x validator_address, raw and signed; Proposal round x pol_round, raw and signed; NewValidBlock part_set_header.total x block_parts bits x is_commit; HasVote index x type x round and VoteSetBits votes bits x type x round around the validator count; NewRoundStep height {0,1,2,h-2..h+2,2^63,2^64-2,2^64-1} x round x step x last_commit_round {0,1,max}), and claimed-position sequences (a NewRoundStep claiming height {h-2..h+2, 2^63, 2^64-2, 2^64-1} with the last_commit_round that passes ValidateHeight, then NewRoundStep / NewValidBlock / HasVote / VoteSetBits / VoteSetMaj23 / ProposalPOL for the claimed height +-1), each followed by the real gossipData / gossipVotes / queryMaj23 routines on the resulting peer state (catch-up branches against the node's real block store, stored commit present and absent), in every node state plus a node at height 3, both tiers; every truncation and every single-byte substitution (alphabet 00 01 08 7f 80 ff) of each valid encoding; every 1- and 2-byte string; " +
 	"votes/proposals/evidence mutated before signing (the peer is a validator); every single-field mutation of the proposed block by the round's proposer, raw and with header hashes recomputed; " +
+	"multi-part proposals (the round's proposer proposes a block padded to 4 and to 5 parts; the node waits for its parts): for every part index the valid part and its merkle proof with the aunts list mutated {last k dropped for every k, first k dropped, duplicated, one appended, first hash replaced}, index/total consistent with the header and the real leaf hash, in the two Propose states; " +
 	"message SEQUENCES of length 3..6 from ONE peer with a retained-state budget measured through in-package accessors (tracked rounds, catch-up rounds per peer, majority claims and per-block tallies of the height vote set): votes (prevotes / precommits / alternating; junk and valid signatures) for distinct untracked rounds of the current height (budget: 2 catch-up rounds per peer, 2 more tracked rounds), VoteSetMaj23 for untracked rounds (0) and for the tracked rounds with changing block ids (1 claim + 1 tally per (round, type) per peer), proposals / block parts for unknown rounds (0), HasVote and NewRoundStep jumps (0 on the node side), in every node state x {fresh, known}; " +
 	"stored consensus messages followed by a DRIVE-ON (votes prevote/precommit, proposals, block parts for height {cur-1,cur,cur+1} x round {cur..cur+4, 1000} x signature {valid, junk}, and every valid seed): after the delivery the node's own timeouts fire and the other validators vote nil until it has entered >= 3 more rounds (variant: and commits a height on a valid block); it must still be alive (no recovered handler panic = CONSENSUS FAILURE, still signing); " +
 	"transaction fetcher (explicit-state search on the real tx_pool.Reactor + fetcher.TxFetcher loop goroutine + TxPool): every sequence of <= 5 (thorough 6) events over {A/B announces h1 | h2 | h1+h2; A/B broadcasts Txs{h1} | Txs{h2}; A/B sends PooledTransactions{h1} | {h2} | {h1,h2} | {h3 never announced} (solicited or not: full / partial / wrong answers); A/B removed; A/B re-added; time passes beyond the arrival timeout (600 ms) / beyond the request timeout (5.1 s) on the fetcher's own injected mclock.Simulated; park = the next request goroutine the loop spawns is delayed at its call of the real fetchTxs callback; late = that call runs only now}, breadth-first per first event, states de-duplicated by a canonical dump of the fetcher's maps + pool content + registered peers, quiescence by counted loop iterations and a no-op Drop round trip (no wall clock); " +
